@@ -55,7 +55,8 @@ async def throttled(
 
         # Activate throttling if not yet active, or reuse the active sequence of delays.
         if throttler.source_of_delays is None:
-            throttler.source_of_delays = iter(delays)
+            # NB: a single number is accepted, as for `settings.networking.error_backoffs`.
+            throttler.source_of_delays = iter(delays if isinstance(delays, Iterable) else [delays])
 
         # Choose a delay. If there are none, avoid throttling at all.
         delay = next(throttler.source_of_delays, throttler.last_used_delay)
